@@ -161,9 +161,9 @@ PARTIAL = (
     "(their _fixed counterparts are file_roundtrip_bytes_domain_fixed and file_writes_fixed) and C11's skip_positions; "
     "the unsplit encoder is the writer whenever no run of non-zero rows exceeds 16383 // multiplier (writer_eq_unsplit, "
     "file_writer_eq_unsplit). The wr stream's inputs have at most 40 rows, so the split of a scipy.sparse column is "
-    "exercised against the code only through the enc / dec streams (16384-row files, ndarray and scipy.sparse input, "
-    "three read modes: the Lean side is encFileBytesFx on the ndarray the input stands for, which "
-    "write_sparse_eq_write_dense_fixed proves equal to the sparse branch); (7) F3 is swapped in place (fmtE = numform(value)): read_back_bits* "
+    "exercised against the code through the enc / dec streams only (16384-row real and 8192-row complex strings handed "
+    "over as ndarray and as scipy.sparse, three read modes: the Lean side is encFileBytesFx on the ndarray the input "
+    "stands for, which write_sparse_eq_write_dense_fixed proves equal to the sparse branch) and by the oracle; (7) F3 is swapped in place (fmtE = numform(value)): read_back_bits* "
     "carry the hypothesis Wide d b = false or 17 <= d - a negative value with a 3-digit exponent written with the default 16 "
     "digits reads back to 16 significant digits, not bit-identical"
 )
@@ -918,6 +918,11 @@ def _big_string_cases():
         D[at : at + rows, 0] = (1.0 + 2.0j) if cplx else 1.0
         out.append({"mats": [{"kind": "ndarray", "cplx": cplx, "D": D}], "names": ["big"], "forms": [2],
                     "opt": "nonbigmat", "endian": "<", "digits": 16})
+        if rows in (16384, 8192):
+            # the same string handed over as a scipy.sparse matrix: the `else  # sparse matrix` branch of
+            # _write_binary_sparse splits too (spStringsFx; write_sparse_eq_write_dense_fixed)
+            out.append({"mats": [{"kind": "sparse", "cplx": cplx, "D": D.copy()}], "names": ["bigsp"], "forms": [2],
+                        "opt": "nonbigmat", "endian": "<", "digits": 16})
     return out
 
 
